@@ -154,6 +154,7 @@ func c02(r *ev.Result, tier string) {
 	/* The Ctrl+I seam: the real Shell's insert enters the input channel as
 	exactly one entry, whatever its size. */
 	runTermSeam(r, "c02", 0, "c02insert")
+	runTermSeamEnv(r, "c02i2", 0, "c02insert", []string{"VERIF_SEAM=insert-twice"})
 	/* The operator's terminal type: lines typed or pasted arrive whatever
 	TERM says (a terminal asked to bracket pastes does so). */
 	for _, term := range []string{"TERM=xterm-256color", "TERM=screen", "TERM=dumb", "TERM"} {
